@@ -37,6 +37,9 @@ pub enum TypeError {
 
     #[error("The separator for split must not be empty")]
     EmptySeparator,
+
+    #[error("Two columns of this aggregation are both named `{}`", name)]
+    DuplicateColumn { name: String },
 }
 
 pub trait TypeCheck<O> {
